@@ -686,7 +686,7 @@ class Emitter:
             call = "vf_lex[i]->yylex()"
             start = "vf_lex[i]->vf_start()"
         else:
-            L.append("static yyscan_t vf_scn[VF_MAXINST];")
+            L.append("static yyscan_t vf_scn[VF_MAXINST], vf_tscn;")
             call = "yylex(vf_scn[i])"
             start = ("yystart(vf_scn[i])" if fl.c99 else "vf_start_r(vf_scn[i])")
         L.append("static int vf_step(int i) { volatile int v; int n; %s = vf_inst[i];" % C)
@@ -727,6 +727,11 @@ class Emitter:
         L.append("\tif (argc < 4) return 93;")
         L.append("\trs = strtoul(argv[2], 0, 0); n = atoi(argv[3]); if (n < 1 || n > VF_MAXINST || argc < 4 + 2 * n) return 93;")
         L.append("\tvf_install();")
+        if o.get("tables_file") and not fl.cxx:
+            # serialized tables are shared by all instances of the scanner: loaded once, through a
+            # scanner object of their own, and released after the last instance is gone
+            L.append("\t{ const char *vf_p = getenv(\"VF_TABLES\"); FILE *vf_f = vf_p ? fopen(vf_p, \"rb\") : 0; "
+                     "if (!vf_f || yylex_init(&vf_tscn) || yytables_fload(vf_f, vf_tscn)) return 91; fclose(vf_f); }")
         L.append("\tfor (i = 0; i < n; ++i) {")
         L.append("\t\tvf_inst[i] = (struct vf_ctx *) calloc(1, sizeof(struct vf_ctx));")
         L.append("\t\tvf_load(vf_inst[i], argv[4 + 2 * i], argv[5 + 2 * i]); vf_inst[i]->use_jmp = 1;")
@@ -749,6 +754,8 @@ class Emitter:
         L.append("\tif (argv[1][0] != 't') for (i = 0; i < n; ++i) vf_destroy(i);")
         L.append("\t{ char b[64]; snprintf(b, sizeof b, \"# max_concurrent %d\\n\", vf_maxinside); "
                  "vf_puts(vf_inst[0], b); }")
+        if o.get("tables_file") and not fl.cxx:
+            L.append("\tyytables_destroy(vf_tscn); yylex_destroy(vf_tscn);")
         L.append("\tvf_flush_all();")
         L.append("\treturn 0;")
         L.append("}")
